@@ -356,6 +356,12 @@ def main(tier, seed):
         print(l)
     ev["coverage"]["phase_wall_s"] = phase
     E.write_evidence(ID, ev)
+    if tool_reports:
+        kinds = {}
+        for r in tool_reports:
+            k = r["kind"] + ("" if r["in_repo"] else "(foreign)")
+            kinds[k] = kinds.get(k, 0) + 1
+        print("C19 tool reports: %s; first: %s" % (kinds, tool_reports[0]["snippet"][:300].replace("\n", " | ")))
     print("C19 %s tier=%s seed=%d: %d events (%d operations) of %d threads in %d runs, %d distinct interleavings, %.1fs -> %s"
           % (TITLE, tier, seed, total["events"], total["ops"], total["threads"], len(runs), len(interleavings), time.time() - t0, ev["verdict"]))
     return code
